@@ -280,7 +280,7 @@ def run_check(prop, tier, verdict, extra_args=None):
             for sh in range(nsh):
                 wseed = seed * 1000 + len(jobs) + 1
                 tag = "%s%s%s-%d" % (c.name, "-" + mode if mode else "", "-fault" if fph else "", sh)
-                jobs.append(dict(cfg=c, mode=mode, seed=wseed, tag=tag, fault_phase=fph, ncases=max(1, total // nsh) if nsh > shards else total,
+                jobs.append(dict(cfg=c, mode=mode, seed=wseed, tag=tag, fault_phase=fph, ncases=max(1, total // nsh) if (nsh > shards or tier == "thorough") else total,
                                  stats=os.path.join(outdir, tag + ".json"),
                                  fp=os.path.join(outdir, tag + ".fp"),
                                  replay=os.path.join(outdir, tag + ".replay"),
